@@ -70,6 +70,12 @@ class Packet(Frame):
 
         self._validate(strict_checking=False)
 
+    def _force_has_array(self) -> None:
+        """Treat the payload as an array: its lifespan is then that of an array too."""
+
+        super()._force_has_array()
+        self._lifespan = pkt_lifespan(self) or False
+
     def _validate(self, *, strict_checking: bool = False) -> None:
         """Validate the packet, and parse the addresses if so (will log all packets).
 
